@@ -425,7 +425,8 @@ def run(args) -> int:
                 {"fault_op": sample_op, "target": targets[sample_op["t"]] if sample_op else None},
                 {"sweep_target": next(iter(targets.values()))},
             ],
-            "programs": f"fixed workload of {len(progs)} safe programs (+ {cfg['comps']} seeded compositions), not generated",
+            "programs": len(progs),
+            "programs_note": f"fixed workload of {len(progs)} safe programs (+ {cfg['comps']} seeded compositions), not generated",
             "op_kinds": st["kinds"],
             "returned": st["ok"],
             "faults": {
